@@ -133,7 +133,7 @@ func (c *Collection) StartDCPFeed(
 }
 
 func (c *Collection) enqueueBackfillEvents(startCas uint64, keysOnly bool, q *eventQueue) error {
-	sql := fmt.Sprintf(`SELECT key, %s, %s, isJSON, cas, tombstone, revSeqNo FROM documents
+	sql := fmt.Sprintf(`SELECT key, %s, %s, isJSON, cas, tombstone, revSeqNo, exp FROM documents
 						WHERE collection=?1 AND cas >= ?2 
 						ORDER BY cas`,
 		ifelse(keysOnly, `null`, `value`),
@@ -144,7 +144,7 @@ func (c *Collection) enqueueBackfillEvents(startCas uint64, keysOnly bool, q *ev
 	}
 	e := event{}
 	for rows.Next() {
-		if err := rows.Scan(&e.key, &e.value, &e.xattrs, &e.isJSON, &e.cas, &e.isDeletion, &e.revSeqNo); err != nil {
+		if err := rows.Scan(&e.key, &e.value, &e.xattrs, &e.isJSON, &e.cas, &e.isDeletion, &e.revSeqNo, &e.exp); err != nil {
 			return err
 		}
 		q.push(e.asFeedEvent(c.GetCollectionID()))
